@@ -87,6 +87,12 @@ def generate_source_code(docstring, parsed):
         # Create a rule called "_ignored" that skips all the ignored rules.
         refs = [Ref(x.name) for x in ignored]
 
+        # An anonymous rule cannot be overridden, and a derived grammar does not
+        # know its name. So refer to it directly, not through the context.
+        for ref in refs:
+            if ref.name.startswith('_anonymous_'):
+                ref.is_static = True
+
         if super_has_ignore:
             # Also skip everything that the parent grammar ignores. The parent's
             # rule is a Skip expression, which always succeeds.
